@@ -179,7 +179,9 @@ def b01 (b : Bool) : String := if b then "1" else "0"
 /-- blank node labels `<hex>;…|-`: the roots the implementation chose in the second pass of
     `ExportResources` (Go map iteration order is a parameter of the model), tried first -/
 def parseHint (s : String) : Option (List (Term L)) :=
-  if s = "-" then some [] else (s.splitOn ";").mapM fun h => (unhex h).map fun b => Term.bnode (utf8Decode b)
+  if s = "-" then some [] else (s.splitOn ";").mapM fun h =>
+    -- `_` stands for the empty label (an empty token cannot travel on the wire)
+    if h = "_" then some (Term.bnode []) else (unhex h).map fun b => Term.bnode (utf8Decode b)
 
 def handle (op : String) (args : List String) : Option String :=
   match op, args with
